@@ -140,12 +140,16 @@ func callC10(c c10Case) string {
 		return fmt.Sprint(err)
 	case "ValidateHOTP":
 		_, err := otp.ValidateHOTP(s(0), s(1), c.U, c.param())
+		otp.ValidateHOTP(s(0), codeOfLen(c.Digits), c.U, c.param()) // a code exactly as long as the (possibly absurd) digit count
+		otp.ValidateHOTP(validSecret, codeOfLen(c.Digits), c.U, c.param())
 		return fmt.Sprint(err)
 	case "GenerateTOTP":
 		_, err := otp.GenerateTOTP(s(0), t, c.param())
 		return fmt.Sprint(err)
 	case "ValidateTOTP":
 		_, err := otp.ValidateTOTP(s(0), s(1), t, c.param())
+		otp.ValidateTOTP(s(0), codeOfLen(c.Digits), t, c.param())
+		otp.ValidateTOTP(validSecret, codeOfLen(c.Digits), t, c.param())
 		return fmt.Sprint(err)
 	case "GenerateHOTPURL", "GenerateTOTPURL":
 		up := otp.URLParam{Issuer: s(0), AccountName: s(1), Secret: s(2), Period: uint(c.Period), Digits: otp.Digits(c.Digits), Algorithm: otp.Algorithm(c.Algo)}
@@ -165,6 +169,7 @@ func callC10(c c10Case) string {
 		return fmt.Sprint(err)
 	case "ValidateOCRA":
 		_, err := otp.ValidateOCRA(s(0), s(1), c.suite(), otp.OCRAInput{Counter: c.bs(0), Challenge: c.bs(1), Password: c.bs(2), SessionInfo: c.bs(3), Timestamp: c.bs(4)})
+		otp.ValidateOCRA(validSecret, codeOfLen(c.Cfg.Digits), c.suite(), otp.OCRAInput{Counter: c.bs(0), Challenge: c.bs(1), Password: c.bs(2), SessionInfo: c.bs(3), Timestamp: c.bs(4)})
 		return fmt.Sprint(err)
 	case "DecodeSecret":
 		_, err := otp.DecodeSecret(s(0))
@@ -240,6 +245,20 @@ func checkC10(c c10Case) verdict {
 var c10Main = newPart("C10", "main",
 	"rapid: every exported function and method except MustRawSuite / MustHexPadLeft (31 operations incl. the default TimeCounterFunc value) with arguments from hostile-biased generators: enums 0..255, uint/uint64/int64 boundaries, strings (valid and invalid UTF-8, empty, 64 KiB, syntax-shaped near-misses), byte slices nil/empty/boundary lengths/64 KiB, arbitrary Param / URLParam / SuiteConfig / OCRAInput field combinations, instants incl. pre-epoch and beyond year 2262, URLs parsed from generated text, hand-built and nil; LeftPadHex widths 0..2^20; suites only of the library's own types; oracle: recover() => no panic, 15 s + 30 s double watchdog => no hang; non-trivial = at least one argument drawn from outside the happy range",
 	checkC10)
+
+const validSecret = "GEZDGNBVGY3TQOJQGEZDGNBVGY3TQOJQ"
+
+// codeOfLen returns a digit string exactly n characters long (n clamped to 0..300): validators that prepare buffers from
+// the digit count before refusing it meet a code that passes their length test.
+func codeOfLen(n int) string {
+	if n < 0 {
+		n = 0
+	}
+	if n > 300 {
+		n = 300
+	}
+	return strings.Repeat("7", n)
+}
 
 var hostileStrings = []string{"", " ", "\x00", "\xff\xfe", "=", "========", "A", "MZXW6YTBOI======", "mzxw6ytboi", "%zz", "otpauth://totp/a:b?secret=x&digits=-1", "otpauth://totp/%zz",
 	"otpauth://hotp/a:b?digits=99999999999999999999", "otpauth://TOTP/x?period=0", "://", "OCRA-1:HOTP-SHA1-6:QN08", "OCRA-1:HOTP-SHA1-6:", "OCRA-1::", "::", "OCRA-1:HOTP-SHA1-:QN08",
